@@ -41,6 +41,10 @@ Definition with_scope {A} (args : list value) : (state -> xres (A * state)) -> s
 Definition with_stack {A} (st : list value) : (state -> xres (A * state)) -> state -> xres (A * state) :=
   bracket (fun s => set_stk s st) (fun s0 s' => set_stk s' (stk s0)).
 
+(* the local variables of a function (its named parameters) are visible in its own code only *)
+Definition with_locals {A} (l : list (str * value)) : (state -> xres (A * state)) -> state -> xres (A * state) :=
+  bracket (fun s => set_locs s l) (fun s0 s' => set_locs s' (locs s0)).
+
 (* ghost counters: a function frame is live / a callee's stack is registered *)
 Definition with_function {A} : (state -> xres (A * state)) -> state -> xres (A * state) :=
   bracket (fun s => set_fdepth s (S (fdepth s))) (fun s0 s' => set_fdepth s' (fdepth s0)).
@@ -60,27 +64,39 @@ Section Step.
      input scope; the result is the top of its own stack *)
   Definition r_lambda (c : closure) (popped : list value) : state -> xres (value * state) :=
     with_stack (rev popped)
-      (with_function
-         (with_context (context_of popped)
-            (with_scope (rev popped)
-               (with_registered
-                  (fun s => xdo s1 <- rec (c_body c) s; let (s2, r) := pop1 s1 in XOk (r, s2)))))).
+      (with_locals []
+         (with_function
+            (with_context (context_of popped)
+               (with_scope (rev popped)
+                  (with_registered
+                     (fun s => xdo s1 <- rec (c_body c) s; let (s2, r) := pop1 s1 in XOk (r, s2))))))).
 
-  (* "numbers pop that many arguments and push them to the function's stack" *)
-  Fixpoint r_params (ps : list nat) (s : state) : state * list value :=
+  (* "numbers pop that many arguments and push them to the function's stack, names pop a single
+     argument and place it into a local variable with the same name" *)
+  Fixpoint r_params (ps : list param) (s : state) : state * list value * list (str * value) :=
     match ps with
-    | [] => (s, [])
-    | n :: r => let (s1, popped) := popn n s in let (s2, more) := r_params r s1 in (s2, popped ++ more)
+    | [] => (s, [], [])
+    | PNum n :: r =>
+        let (s1, popped) := popn n s in
+        let '(s2, more, loc) := r_params r s1 in (s2, popped ++ more, loc)
+    | PName x :: r =>
+        let (s1, v) := pop1 s in
+        let '(s2, more, loc) := r_params r s1 in (s2, more, (x, v) :: loc)
     end.
+
+  (* later parameters of the same name win *)
+  Definition bind_all (l : list (str * value)) : list (str * value) :=
+    fold_left (fun acc kv => assign (fst kv) (snd kv) acc) l [].
 
   (* a named function takes its arguments from the current stack; "the entire function stack"
      is the result *)
   Definition r_named (c : closure) (s : state) : xres (list value * state) :=
-    let (s1, ps) := r_params (c_params c) s in
+    let '(s1, ps, loc) := r_params (c_params c) s in
     with_stack (rev ps)
-      (with_context (VList ps)
-         (with_scope (rev ps)
-            (with_registered (fun s => xdo s' <- rec (c_body c) s; XOk (stk s', s'))))) s1.
+      (with_locals (bind_all loc)
+         (with_context (VList ps)
+            (with_scope (rev ps)
+               (with_registered (fun s => xdo s' <- rec (c_body c) s; XOk (stk s', s')))))) s1.
 
   (* applying a function value to explicit arguments *)
   Definition r_app : app_t := fun c args s =>
@@ -108,7 +124,7 @@ Section Step.
     | KGeneral => match tv t with [k] => elem_sem cf r_app r_callstk k s | _ => XErr ENotCore end
     | KVarGet =>
         if name_ok (tv t) then
-          match lookup (tv t) (vars s) with Some v => XOk (push v s) | None => XErr EName end
+          match lookup_var (tv t) s with Some v => XOk (push v s) | None => XErr EName end
         else XErr ENotCore
     | KVarSet =>
         if name_ok (tv t) then let (s1, v) := pop1 s in XOk (set_vars s1 (assign (tv t) v (vars s1)))
@@ -150,7 +166,7 @@ Section Step.
     match its with
     | [] => XOk ([], s)
     | x :: r =>
-        xdo (top, s1) <- with_stack (stk s) (fun s => xdo s' <- rec x s; XOk (hd_error (stk s'), s')) s;
+        xdo (top, s1) <- with_stack (stk s) (with_locals [] (fun s => xdo s' <- rec x s; XOk (hd_error (stk s'), s'))) s;
         xdo (vs, s2) <- r_items r s1;
         XOk (match top with Some v => v :: vs | None => vs end, s2)
     end.
@@ -176,7 +192,7 @@ Section Step.
         wl v c b s2
     | SFnCall n =>
         if name_ok (keep re_keep_fncall n) then
-          match lookup (keep re_keep_fncall n) (vars s) with
+          match lookup_var (keep re_keep_fncall n) s with
           | Some (VFun c) => r_callstk c s
           | Some _ => XErr EStuck
           | None => XErr EName
@@ -185,7 +201,7 @@ Section Step.
     | SFnDef n ps body =>
         if name_ok (keep re_keep_fndef n) then
           match params_of ps with
-          | Some counts => XOk (set_vars s (assign (keep re_keep_fndef n) (VFun (mk_named counts body)) (vars s)))
+          | Some params => XOk (set_vars s (assign (keep re_keep_fndef n) (VFun (mk_named params body)) (vars s)))
           | None => XErr ENotCore
           end
         else XErr ENotCore
@@ -195,7 +211,7 @@ Section Step.
         match o with
         | OpMap => elem_sem cf r_app r_callstk 77%N s1
         | OpFilter => elem_sem cf r_app r_callstk 70%N s1
-        | OpSort => XErr ENotCore
+        | OpSort => elem_sem cf r_app r_callstk 7777%N s1
         end
     | SList its => xdo (vs, s1) <- r_items its s; XOk (push (VList vs) s1)
     | SMod1 m a =>
